@@ -1125,6 +1125,48 @@ def q15(rep):
     rep.floor("negated literals in peepPositive", n, 1)
 
 
+def q17(rep):
+    """The retype pass (-Qcast) gives a variable read several times through the same cast a declaration of that type.  For a
+    *parameter* it introduces a local copied from the parameter on entry and redirects every read of (Par i) to it
+    (retRearrangeVar consults context->parLocs); assignments to the parameter are not redirected (retRearrangeSet never looks
+    at parLocs).  That half is harmless only because no parameter is ever selected: the marking loop of rtcRearrangeProg drops
+    every candidate whose declaration's symeIndex differs from -1, a value no declaration carries.  `Correcting` that
+    comparison to the real sentinel makes the path live: a function that assigns to its own retyped parameter goes on
+    computing with the value it was called with, at -Q2 and above only.  Either the write side redirects like the read side,
+    or the selection of parameters stays switched off."""
+    f = common.extract("of_retyp2.c", trees=["retRearrangeVar", "retRearrangeSet", "rtcRearrangeProg"])
+    var, set_, prog = f.func("retRearrangeVar"), f.func("retRearrangeSet"), f.func("rtcRearrangeProg")
+    reads_redirect = any(y["k"] == "MemberExpr" and y["n"] == "parLocs" for y in walk(var["body"]))
+    writes_redirect = any(y["k"] == "MemberExpr" and y["n"] == "parLocs" for y in walk(set_["body"]))
+    if not reads_redirect:
+        rep.ok("Q17", "retyped-parameter:reads-and-writes-together", nontrivial=False)
+        return
+    guards = [x for x in walk(prog["body"]) if x["k"] == "BinaryOperator" and x["op"] == "!=" and
+              (strip(x["c"][0]) or {}).get("k") == "MemberExpr" and strip(x["c"][0])["n"] == "symeIndex"]
+    # the parameter loop is the one whose candidates come from parDecls
+    dormant = False
+    par_guard = None
+    for x in walk(prog["body"]):
+        if x["k"] == "IfStmt":
+            c = strip(x["c"][0])
+            if c in guards and any(y["k"] == "MemberExpr" and y["n"] == "parDecls" for y in walk(x["c"][1])):
+                par_guard = c
+                dormant = const_value(c["c"][1]) == -1
+    if par_guard is None:
+        raise AnalysisBroken("rtcRearrangeProg: the test that drops parameter candidates by their symeIndex was not found")
+    if writes_redirect:
+        rep.ok("Q17", "retyped-parameter:reads-and-writes-together", sample={"write side": "redirects"})
+    elif dormant:
+        rep.ok("Q17", "retyped-parameter:reads-and-writes-together",
+               sample={"write side": "does not redirect", "selection": "switched off (symeIndex != -1 holds for every declaration)"})
+    else:
+        rep.violation("Q17", "retyped-parameter:reads-and-writes-together", "of_retyp2.c:%d (rtcRearrangeProg)" % par_guard["l"],
+                      "parameters can now be selected for retyping (`%s`), but only their reads are redirected to the new local "
+                      "(retRearrangeVar); `(Set (Par i) ..)` still writes the parameter (retRearrangeSet): a function that assigns "
+                      "to its own parameter computes with the value it was called with -- at -Q2 and above only"
+                      % render(par_guard)[:60])
+
+
 def run(tier, only=None):
     rep = common.Report("C02", tier, EXPLANATION)
     f_foam = common.extract("foam.c", trees=["foamHasSideEffect", "foamIsControlFlow"])
@@ -1144,6 +1186,7 @@ def run(tier, only=None):
     q13(rep)
     q14(rep, tier)
     q15(rep)
+    q17(rep)
     from . import lowmask
     opt_units = [u for u in common.compiler_units() if u.startswith("of_") or u in ("usedef.c", "flog.c", "dflow.c", "optfoam.c", "inlutil.c", "loops.c", "bitv.c")]
     lowmask.report(rep, "Q16", opt_units)       # the data-flow iteration's vectors: the last word counts when the size is a multiple of the word
